@@ -140,6 +140,7 @@ def run_case(case):
                                        'lzma_preset': o['lzma_preset'] if api_version == 3 else None, 'silent': o['silent']}}, data, tmp)
         # ---- route D: the single-call API (assemble_and_run: temporary .fjm, so only success / output / termination compare)
         Dr = run_worker('api', {'api': {'files': files, 'out': str(tmp / 'd.fjm'), 'debug': None, 'w': eff_w, 'one_call': True,
+                                        'prior_run': (len(name) + eff_w + api_version) % 2 == 0,
                                         'use_stl': not o['no_stl_flag'], 'version': api_version, 'werror': o['werror'],
                                         'lzma_preset': None, 'silent': o['silent']}}, data, tmp)
         ok_a, ok_b, ok_c = A['exit'] == 0, (B1['exit'] == 0 and B2 is not None and B2['exit'] == 0), C['exit'] == 0
